@@ -767,6 +767,7 @@ func (f *Frame) instr(in ssa.Instruction) {
 		e.comp(f.st, name, "Bool")
 		e.setComp(f.st, name, "true")
 	case *ssa.RunDefers:
+		f.returnGuards(in)
 		f.runDefers()
 	case *ssa.Go:
 		// a goroutine whose body is a function (literal) under contract with a frame clause can, concurrently,
@@ -1670,4 +1671,25 @@ func (e *Enc) runeDecls() {
 		"(declare-fun go.runecount (String) Int)",
 		"(declare-fun go.runes2str ((Array Int Int) Int Int) String)",
 		"(declare-fun go.rune2str (Int) String)")
+}
+
+// returnGuards: obligations of the unit's returnguard clauses at the point where the function leaves its body and
+// its deferred calls are about to run (functions without defers: not generated).
+func (f *Frame) returnGuards(in ssa.Instruction) {
+	e := f.e
+	if f.depth != 0 {
+		return
+	}
+	for _, rg := range e.unit.RetGuards {
+		errs := []string{}
+		env := &CEnv{e: e, vars: f.params, st: f.st, old: f.entrySt, pkg: f.fn.Pkg.Pkg, frame: f, at: in.Block(), lets: e.unit.Lets, errs: &errs}
+		goal := env.evalBool(rg.Expr)
+		f.reportEnvErrs(env, rg)
+		lab := rg.Label
+		if lab == "" {
+			lab = "r"
+		}
+		e.callOrd["retguard."+lab]++
+		e.oblige("pre", fmt.Sprintf("%s#pre[call.return#%d.%s]", e.unit.Key(), e.callOrd["retguard."+lab], lab), lab, f.reach, goal, e.P.pos(in.Pos()))
+	}
 }
